@@ -143,6 +143,20 @@ func setupHost(dir string) error {
 			return err
 		}
 	}
+	// legal but less common configuration syntax, written by hand as an editor would: a key without
+	// value (true), a continued line, backslashes, an include
+	extra := "[verifx]\n\tflag\n\tmulti = one \\\n  two\n\tpath = C:\\\\dir\\\\file\n# a comment\n[include]\n\tpath = extra.cfg\n"
+	cf, err := os.OpenFile(filepath.Join(host, ".git", "config"), os.O_APPEND|os.O_WRONLY, 0o644)
+	if err != nil {
+		return err
+	}
+	cf.WriteString(extra)
+	cf.Close()
+	os.WriteFile(filepath.Join(host, ".git", "extra.cfg"), []byte("[extra]\n\tk = v\n"), 0o644)
+	// refs as a garbage-collected repository has them
+	if _, err := git(host, "pack-refs", "--all"); err != nil {
+		return err
+	}
 	// dirty working tree: unstaged change, staged change, untracked file
 	os.WriteFile(filepath.Join(host, "a.txt"), []byte("one\nmodified\n"), 0o644)
 	os.WriteFile(filepath.Join(host, "sub/c.txt"), []byte("three\nstaged\n"), 0o644)
@@ -404,7 +418,7 @@ func (a *Frame) Compare(b *Frame) []Diff {
 var hexish = regexp.MustCompile(`[0-9a-f]{7,}`)
 
 func sigOf(d Diff) string {
-	s := hexish.ReplaceAllString(d.Detail, "#")
+	s := strings.Join(strings.Fields(hexish.ReplaceAllString(d.Detail, "#")), " ")
 	if len(s) > 80 {
 		s = s[:80]
 	}
